@@ -33,6 +33,7 @@
 #include <bit>
 #include <chrono>
 #include <cinttypes>
+#include <cmath>
 #include <numeric>
 #include <ratio>
 #include <type_traits>
@@ -1392,6 +1393,471 @@ constexpr auto make_table(std::integer_sequence<int, G...>) -> std::array<GroupD
 auto const g_table = make_table(std::make_integer_sequence<int, NCOMBO * 100>{});
 auto present(GroupDesc const& g) -> bool { return g.e != nullptr || g.broken != nullptr; }
 
+
+// ------------------------------------------------------------------------------------------------ floating-point rep matrix
+// The grid above uses int32 / int64 / double.  This section instantiates, for a small set of period pairs (three with
+// equal periods, five whose conversion factor has num != 1 and/or den != 1), every ordered pair of {float, double,
+// long double} and the floating <-> integer pairs, and checks
+//   fp_convert : converting constructor (where std allows it), duration_cast, + , - and the six comparisons - all
+//                specified expression by expression, hence bit-identical to std::chrono for ANY finite count (no UB:
+//                integer destinations only within range): counts n/16, seeded random doubles, and counts t*D*2^e whose
+//                exact result t*N*2^e is representable in the destination (then also compared with that exact value);
+//   fp_round   : floor / ceil / round (ties to even) of durations and time_points, also when only the REP changes
+//                (equal periods, floating source, integer destination): counts n/16 (all sixteenths incl. exact
+//                halves and their neighbours, negative values) against exact rational arithmetic and std::chrono, inside
+//                the window where the computation type holds every intermediate exactly.
+enum FKind { FK_I32 = 0, FK_I64 = 1, FK_F64 = 2, FK_F32 = 3, FK_F80 = 4 };
+template <typename R>
+inline constexpr int fkind_of = std::is_same_v<R, float> ? FK_F32 : std::is_same_v<R, double> ? FK_F64 : std::is_same_v<R, long double> ? FK_F80 : sizeof(R) == 4 ? FK_I32 : FK_I64;
+constexpr bool fk_float(int k) { return k >= 2; }
+constexpr int fk_mant(int k) { return k == FK_F32 ? 24 : k == FK_F64 ? 53 : k == FK_F80 ? 62 : k == FK_I32 ? 31 : 62; } // exact-integer window (bits)
+constexpr int fk_rank(int k) { return k == FK_F32 ? 1 : k == FK_F64 ? 2 : k == FK_F80 ? 3 : 0; }
+auto fk_name(int k) -> char const* { return k == FK_I32 ? "int32" : k == FK_I64 ? "int64" : k == FK_F64 ? "double" : k == FK_F32 ? "float" : "long double"; }
+// kind of common_type<A, B, intmax_t> / common_type<A, B>
+constexpr int fk_common(int a, int b, bool with_intmax)
+{
+    if (fk_float(a) || fk_float(b)) { return fk_rank(a) >= fk_rank(b) ? a : b; }
+    return (with_intmax || a == FK_I64 || b == FK_I64) ? FK_I64 : FK_I32;
+}
+
+struct FNum { // a count of any rep: floating values are held exactly in a long double
+    long double f{0};
+    i64 i{0};
+};
+template <typename R>
+constexpr auto fget(FNum n) -> R
+{
+    if constexpr (std::is_floating_point_v<R>) {
+        return static_cast<R>(n.f);
+    } else {
+        return static_cast<R>(n.i);
+    }
+}
+template <typename R>
+constexpr auto fput(R v) -> FNum
+{
+    if constexpr (std::is_floating_point_v<R>) {
+        return FNum{static_cast<long double>(v), 0};
+    } else {
+        return FNum{0, static_cast<i64>(v)};
+    }
+}
+auto fsame(int k, FNum a, FNum b) -> bool { return fk_float(k) ? (a.f == b.f && std::signbit(a.f) == std::signbit(b.f)) : a.i == b.i; }
+auto fstr(int k, FNum v) -> std::string
+{
+    if (!fk_float(k)) { return std::to_string(v.i); }
+    char b[80];
+    std::snprintf(b, sizeof b, "%.21Lg", v.f);
+    return b;
+}
+
+struct FFacts {
+    bool constructible, convertible;
+    int ct_rep;
+    long long ct_num, ct_den;
+};
+struct FOpsTable {
+    FFacts facts;
+    FNum (*ctor)(FNum);
+    FNum (*cast)(FNum);
+    void (*fcr)(FNum, FNum*);        // floor, ceil, round, and the same three for a time_point
+    void (*arith)(FNum, FNum, FNum*); // a + b, a - b
+    unsigned (*cmp)(FNum, FNum);
+};
+template <typename L, typename R1, typename R2, int I, int J>
+struct FOps {
+    using D1 = typename L::template dur<R1, I>;
+    using D2 = typename L::template dur<R2, J>;
+    using CT = typename L::template ct<D1, D2>;
+    using T1 = typename L::template tp<D1>;
+    static constexpr bool ctor_ok = std::is_constructible_v<D2, D1>;
+    static constexpr bool to_int  = !std::is_floating_point_v<R2>;
+    static auto d1(FNum c) -> D1 { return D1{fget<R1>(c)}; }
+    static auto d2(FNum c) -> D2 { return D2{fget<R2>(c)}; }
+    static auto ctor(FNum c) -> FNum
+    {
+        if constexpr (ctor_ok) {
+            return fput(D2(d1(c)).count());
+        } else {
+            return c;
+        }
+    }
+    static auto cast(FNum c) -> FNum { return fput(L::template cast<D2>(d1(c)).count()); }
+    static void fcr(FNum c, FNum* out)
+    {
+        auto const d = d1(c);
+        T1 const t{d};
+        out[0] = fput(L::template floor<D2>(d).count());
+        out[1] = fput(L::template ceil<D2>(d).count());
+        out[3] = fput(L::template floor<D2>(t).time_since_epoch().count());
+        out[4] = fput(L::template ceil<D2>(t).time_since_epoch().count());
+        if constexpr (to_int) {
+            out[2] = fput(L::template round<D2>(d).count());
+            out[5] = fput(L::template round<D2>(t).time_since_epoch().count());
+        }
+    }
+    static void arith(FNum a, FNum b, FNum* out)
+    {
+        out[0] = fput((d1(a) + d2(b)).count());
+        out[1] = fput((d1(a) - d2(b)).count());
+    }
+    static auto cmp(FNum a, FNum b) -> unsigned
+    {
+        auto const x = d1(a);
+        auto const y = d2(b);
+        return (x == y ? 1U : 0U) | (x != y ? 2U : 0U) | (x < y ? 4U : 0U) | (x <= y ? 8U : 0U) | (x > y ? 16U : 0U) | (x >= y ? 32U : 0U);
+    }
+    static constexpr FOpsTable table{FFacts{ctor_ok, std::is_convertible_v<D1, D2>, fkind_of<typename CT::rep>, CT::period::num, CT::period::den}, &ctor, &cast, &fcr, &arith, &cmp};
+};
+
+template <int RP>
+struct FRepPair;
+#define C12_FREP(RP, A, B)                                                                                             \
+    template <>                                                                                                        \
+    struct FRepPair<RP> {                                                                                              \
+        using r1 = A;                                                                                                  \
+        using r2 = B;                                                                                                  \
+    };
+C12_FREP(0, float, double)
+C12_FREP(1, float, long double)
+C12_FREP(2, double, float)
+C12_FREP(3, double, long double)
+C12_FREP(4, long double, float)
+C12_FREP(5, long double, double)
+C12_FREP(6, float, float)
+C12_FREP(7, long double, long double)
+C12_FREP(8, double, i64)
+C12_FREP(9, float, i32)
+C12_FREP(10, long double, i64)
+C12_FREP(11, float, i64)
+C12_FREP(12, double, i32)
+C12_FREP(13, i32, float)
+C12_FREP(14, i64, long double)
+C12_FREP(15, i64, float)
+C12_FREP(16, i32, double)
+constexpr int NFREP = 17;
+constexpr int FK1[NFREP] = {FK_F32, FK_F32, FK_F64, FK_F64, FK_F80, FK_F80, FK_F32, FK_F80, FK_F64, FK_F32, FK_F80, FK_F32, FK_F64, FK_I32, FK_I64, FK_I64, FK_I32};
+constexpr int FK2[NFREP] = {FK_F64, FK_F80, FK_F32, FK_F80, FK_F32, FK_F64, FK_F32, FK_F80, FK_I64, FK_I32, FK_I64, FK_I64, FK_I32, FK_F32, FK_F80, FK_F32, FK_F64};
+// period pairs (indices into the period set): equal periods, and conversion factors 1/60, 60, 7/15, 150000/7007, 1001/10000
+constexpr int NFPP       = 8;
+constexpr int FPI[NFPP]  = {3, 2, 8, 3, 4, 7, 8, 9};
+constexpr int FPJ[NFPP]  = {3, 2, 8, 4, 3, 8, 9, 7};
+
+struct FDesc {
+    int RP, PP, I, J;
+    int k1, k2, kcr, kc; // source, destination, computation type of cast / constructor, rep of the common type
+    i64 N, D, f1, f2, ctn, ctd;
+    FOpsTable const* e;
+    FOpsTable const* s;
+    [[nodiscard]] auto n1() const -> std::string { return std::string("duration<") + fk_name(k1) + "," + per_name(I) + ">"; }
+    [[nodiscard]] auto n2() const -> std::string { return std::string("duration<") + fk_name(k2) + "," + per_name(J) + ">"; }
+};
+constexpr bool f_in_slice(int m) { return m % C12_NSLICES == C12_SLICE; }
+template <int M>
+constexpr auto fdesc() -> FDesc
+{
+    constexpr int RP = M / NFPP, PP = M % NFPP, I = FPI[PP], J = FPJ[PP];
+    FDesc d{};
+    d.RP  = RP;
+    d.PP  = PP;
+    d.I   = I;
+    d.J   = J;
+    d.k1  = FK1[RP];
+    d.k2  = FK2[RP];
+    d.kcr = fk_common(d.k1, d.k2, true);
+    d.kc  = fk_common(d.k1, d.k2, false);
+    i64 a = PN[I] * PD[J];
+    i64 b = PD[I] * PN[J];
+    i64 g = std::gcd(a, b);
+    d.N   = a / g;
+    d.D   = b / g;
+    d.ctn = std::gcd(PN[I], PN[J]);
+    d.ctd = std::lcm(PD[I], PD[J]);
+    d.f1  = (PN[I] / d.ctn) * (d.ctd / PD[I]);
+    d.f2  = (PN[J] / d.ctn) * (d.ctd / PD[J]);
+    if constexpr (f_in_slice(M)) {
+        using R1 = typename FRepPair<RP>::r1;
+        using R2 = typename FRepPair<RP>::r2;
+        d.e      = &FOps<LibE, R1, R2, I, J>::table;
+        d.s      = &FOps<LibS, R1, R2, I, J>::table;
+    }
+    return d;
+}
+template <int... M>
+constexpr auto make_ftable(std::integer_sequence<int, M...>) -> std::array<FDesc, sizeof...(M)>
+{
+    return {fdesc<M>()...};
+}
+auto const g_ftable = make_ftable(std::make_integer_sequence<int, NFREP * NFPP>{});
+
+// a first count: mode 0: the integer n; mode 1: n/16; mode 2: the double with bit pattern n;
+// mode 3: n * D * 2^e (e = the second number of the case), whose exact converted value n * N * 2^e is representable
+struct FVal {
+    int mode;
+    i64 n;
+    i64 e;
+    [[nodiscard]] auto value(FDesc const& g) const -> long double
+    {
+        if (mode == 0) { return static_cast<long double>(n); }
+        if (mode == 1) { return static_cast<long double>(n) / 16.0L; }
+        if (mode == 2) { return static_cast<long double>(std::bit_cast<double>(n)); }
+        return std::ldexp(static_cast<long double>(n * g.D), static_cast<int>(e));
+    }
+    [[nodiscard]] auto scale() const -> i64 { return mode == 1 ? 16 : 1; }
+};
+auto f_num(int k, long double v) -> FNum { return fk_float(k) ? FNum{v, 0} : FNum{0, static_cast<i64>(v)}; }
+// is the source value exactly representable in the source rep (so that both libraries and the oracle see the same number)
+auto f_source_ok(FDesc const& g, FVal v) -> bool
+{
+    long double const x = v.value(g);
+    if (!fk_float(g.k1)) { return (v.mode == 0 || v.mode == 3) && x == std::floor(x) && std::fabs(x) <= std::ldexp(1.0L, fk_mant(g.k1)); }
+    if (g.k1 == FK_F32) { return static_cast<long double>(static_cast<float>(x)) == x; }
+    if (g.k1 == FK_F64) { return static_cast<long double>(static_cast<double>(x)) == x; }
+    return true;
+}
+constexpr i128 pow2(int b) { return i128{1} << b; }
+
+enum { S_FPCONV = 0, S_FPROUND = 1 };
+std::uint64_t g_fp_evals[2];
+std::uint64_t g_fp_lab[4][2]; // exact window of convert, window of round, exact tie, equal periods
+char const* const FP_LABS[4] = {"fp_convert.exact_window", "fp_round.in_window", "fp_round.exact_tie", "fp.equal_periods_different_reps"};
+void flush_fp()
+{
+    if (g_fp_evals[0] != 0) { vf::eval("fp_convert", g_fp_evals[0]); }
+    if (g_fp_evals[1] != 0) { vf::eval("fp_round", g_fp_evals[1]); }
+    g_fp_evals[0] = g_fp_evals[1] = 0;
+    for (int l = 0; l < 4; ++l) {
+        if (g_fp_lab[l][1] != 0) { vf::label(FP_LABS[l], g_fp_lab[l][0], g_fp_lab[l][1]); }
+        g_fp_lab[l][0] = g_fp_lab[l][1] = 0;
+    }
+}
+void fp_lab(int l, bool hit)
+{
+    g_fp_lab[l][0] += hit ? 1 : 0;
+    g_fp_lab[l][1] += 1;
+}
+auto fmk(FDesc const& g, char const* sub, FVal v, i64 c2) -> Case { return Case{sub, g.RP, g.PP, v.mode == 3 ? static_cast<int>(v.e) : 0, v.n, v.mode, c2}; }
+
+void chk_fp_convert(FDesc const& g, FVal v, i64 c2)
+{
+    Case k = fmk(g, "fp_convert", v, c2);
+    vf::Flight<Case> fl("fp_convert", k);
+    auto const& fe = g.e->facts;
+    auto const& fs = g.s->facts;
+    REQUIRE(k, fe.constructible == fs.constructible && fe.convertible == fs.convertible,
+        g.n1() + " -> " + g.n2() + ": is_constructible etl " + std::to_string(fe.constructible) + " std " + std::to_string(fs.constructible) + ", is_convertible etl " + std::to_string(fe.convertible) + " std " + std::to_string(fs.convertible));
+    REQUIRE(k, fe.ct_rep == fs.ct_rep && fe.ct_num == fs.ct_num && fe.ct_den == fs.ct_den && fs.ct_rep == g.kc, "common_type of " + g.n1() + " and " + g.n2() + " differs from std::chrono");
+    if (!f_source_ok(g, v)) { return; }
+    long double const x = v.value(g);
+    FNum const a        = f_num(g.k1, x);
+    auto const src      = [&] { return g.n1() + "(" + fstr(g.k1, a) + ")"; };
+    // ---- exact converted value, if it can be stated
+    bool exact = false;
+    long double ex = 0; // exact value of count * N / D
+    if (v.mode == 3) {
+        i128 const tN = i128{v.n} * g.N;
+        i128 const in = i128{v.n} * g.D * g.N; // intermediate count * N (times 2^e)
+        exact         = abs128(in) <= pow2(fk_mant(g.kcr)) && abs128(tN) <= pow2(fk_mant(g.k2)) && (fk_float(g.k2) || v.e >= 0);
+        ex            = std::ldexp(static_cast<long double>(static_cast<i64>(tN)), static_cast<int>(v.e));
+        if (!fk_float(g.k2) && std::fabs(ex) > std::ldexp(1.0L, fk_mant(g.k2))) { exact = false; }
+    } else if (v.mode == 0 || v.mode == 1) {
+        i128 const num = i128{v.n} * g.N;
+        i128 const den = i128{v.scale()} * g.D;
+        if (abs128(num) <= pow2(fk_mant(g.kcr))) {
+            if (fk_float(g.k2)) {
+                if (num % g.D == 0 && abs128(num / g.D) <= pow2(fk_mant(g.k2))) {
+                    exact = true;
+                    ex    = static_cast<long double>(static_cast<i64>(num / g.D)) / static_cast<long double>(v.scale());
+                }
+            } else if (abs128(q_trunc(num, den)) <= pow2(fk_mant(g.k2))) {
+                exact = true;
+                ex    = static_cast<long double>(static_cast<i64>(q_trunc(num, den))); // duration_cast truncates
+            }
+        }
+    }
+    fp_lab(0, exact);
+    fp_lab(3, g.N == 1 && g.D == 1);
+    // ---- no UB: a floating value converted to an integer destination must be in range
+    bool in_range = true;
+    if (!fk_float(g.k2)) { in_range = std::fabs(x) * static_cast<long double>(g.N) / static_cast<long double>(g.D) < std::ldexp(1.0L, fk_mant(g.k2) - 1); }
+    if (in_range) {
+        FNum const re = g.e->cast(a);
+        FNum const rs = g.s->cast(a);
+        REQUIRE(k, fsame(g.k2, re, rs), "duration_cast<" + g.n2() + ">(" + src() + "): etl " + fstr(g.k2, re) + " std::chrono " + fstr(g.k2, rs));
+        if (exact) { REQUIRE(k, fk_float(g.k2) ? re.f == ex : static_cast<long double>(re.i) == ex, "duration_cast<" + g.n2() + ">(" + src() + "): etl " + fstr(g.k2, re) + " exact " + fstr(FK_F80, FNum{ex, 0})); }
+        ++g_fp_evals[S_FPCONV];
+        if (fe.constructible) {
+            FNum const ce = g.e->ctor(a);
+            FNum const cs = g.s->ctor(a);
+            REQUIRE(k, fsame(g.k2, ce, cs), g.n2() + "(" + src() + ").count() [converting constructor]: etl " + fstr(g.k2, ce) + " std::chrono " + fstr(g.k2, cs));
+            if (exact) { REQUIRE(k, fk_float(g.k2) ? ce.f == ex : static_cast<long double>(ce.i) == ex, g.n2() + "(" + src() + ").count() [converting constructor]: etl " + fstr(g.k2, ce) + " exact " + fstr(FK_F80, FNum{ex, 0})); }
+            ++g_fp_evals[S_FPCONV];
+        }
+    }
+    // ---- + , - and the comparisons with a second operand of the destination type (the common rep is floating: no UB)
+    if (v.mode != 3) {
+        long double const y = v.mode == 2 ? static_cast<long double>(std::bit_cast<double>(c2)) : static_cast<long double>(c2) / static_cast<long double>(v.scale());
+        bool y_ok           = true;
+        if (!fk_float(g.k2)) {
+            y_ok = y == std::floor(y) && std::fabs(y) < std::ldexp(1.0L, fk_mant(g.k2) - 1);
+        } else if (g.k2 == FK_F32) {
+            y_ok = static_cast<long double>(static_cast<float>(y)) == y;
+        } else if (g.k2 == FK_F64) {
+            y_ok = static_cast<long double>(static_cast<double>(y)) == y;
+        }
+        if (y_ok) {
+            FNum const b = f_num(g.k2, y);
+            FNum e[2], s[2];
+            g.e->arith(a, b, e);
+            g.s->arith(a, b, s);
+            auto const rhs = [&] { return g.n2() + "(" + fstr(g.k2, b) + ")"; };
+            REQUIRE(k, fsame(g.kc, e[0], s[0]), src() + " + " + rhs() + ": etl " + fstr(g.kc, e[0]) + " std::chrono " + fstr(g.kc, s[0]));
+            REQUIRE(k, fsame(g.kc, e[1], s[1]), src() + " - " + rhs() + ": etl " + fstr(g.kc, e[1]) + " std::chrono " + fstr(g.kc, s[1]));
+            unsigned const ce = g.e->cmp(a, b);
+            unsigned const cs = g.s->cmp(a, b);
+            REQUIRE(k, ce == cs, src() + " <op> " + rhs() + ": etl " + bits_str(ce) + " std::chrono " + bits_str(cs));
+            if (v.mode != 2) { // exact sum / difference / order, when the common type holds them exactly
+                i128 const A = i128{v.n} * g.f1;
+                i128 const B = i128{c2} * g.f2;
+                if (abs128(A) <= pow2(fk_mant(g.kc)) && abs128(B) <= pow2(fk_mant(g.kc)) && abs128(A + B) <= pow2(fk_mant(g.kc)) && abs128(A - B) <= pow2(fk_mant(g.kc))) {
+                    long double const sc_ = static_cast<long double>(v.scale());
+                    REQUIRE(k, e[0].f == static_cast<long double>(static_cast<i64>(A + B)) / sc_ && e[1].f == static_cast<long double>(static_cast<i64>(A - B)) / sc_ && ce == cmp_bits(A, B),
+                        src() + " +,-,<op> " + rhs() + ": etl " + fstr(g.kc, e[0]) + " " + fstr(g.kc, e[1]) + " " + bits_str(ce) + " differs from the exact sum / difference / order");
+                }
+            }
+            g_fp_evals[S_FPCONV] += 8;
+        }
+    }
+}
+
+void chk_fp_round(FDesc const& g, FVal v)
+{
+    if (v.mode > 1) { return; }
+    Case k = fmk(g, "fp_round", v, 0);
+    vf::Flight<Case> fl("fp_round", k);
+    if (!f_source_ok(g, v)) { return; }
+    i128 const num = i128{v.n} * g.N;
+    i128 const den = i128{v.scale()} * g.D;
+    i128 const t   = q_trunc(num, den);
+    // window: the computation type of the cast holds count*N exactly, the common type holds d and the candidates
+    // t-1, t, t+1 (in common ticks) and their differences exactly, the candidates are representable in the destination
+    bool ok = abs128(num) <= pow2(fk_mant(g.kcr));
+    i128 const A = i128{v.n} * g.f1;
+    ok           = ok && abs128(A) <= pow2(fk_mant(g.kc));
+    for (i128 x : {t - 1, t, t + 1}) {
+        i128 const L = x * g.f2 * v.scale();
+        ok           = ok && abs128(x) < pow2(fk_mant(g.k2) - 1) && abs128(L) <= pow2(fk_mant(g.kc)) && abs128(A - L) <= pow2(fk_mant(g.kc));
+    }
+    if (fk_float(g.k2)) { ok = ok && num % g.D == 0 && abs128(num / g.D) <= pow2(fk_mant(g.k2)); } // floating destination: only exact quotients
+    fp_lab(1, ok);
+    if (!ok) { return; }
+    FNum const a = f_num(g.k1, v.value(g));
+    FNum e[6], s[6], x[6];
+    g.e->fcr(a, e);
+    g.s->fcr(a, s);
+    int const cnt = fk_float(g.k2) ? 2 : 3;
+    if (fk_float(g.k2)) {
+        x[0] = x[1] = FNum{static_cast<long double>(static_cast<i64>(num / g.D)) / static_cast<long double>(v.scale()), 0};
+    } else {
+        x[0] = FNum{0, static_cast<i64>(q_floor(num, den))};
+        x[1] = FNum{0, static_cast<i64>(q_ceil(num, den))};
+        x[2] = FNum{0, static_cast<i64>(q_round_even(num, den))};
+        fp_lab(2, q_tie(num, den));
+    }
+    char const* const nm[3] = {"floor", "ceil", "round"};
+    for (int form = 0; form < 2; ++form) {
+        for (int o = 0; o < cnt; ++o) {
+            FNum const re = e[form * 3 + o], rs = s[form * 3 + o];
+            auto const what = [&] { return std::string(nm[o]) + "<" + g.n2() + ">(" + (form ? "time_point<system_clock," : "") + g.n1() + (form ? ">" : "") + "(" + fstr(g.k1, a) + "))"; };
+            REQUIRE(k, fsame(g.k2, rs, x[o]), "oracle disagreement (harness bug): std::chrono::" + what() + " = " + fstr(g.k2, rs) + ", exact " + fstr(g.k2, x[o]));
+            REQUIRE(k, fsame(g.k2, re, x[o]) || (fk_float(g.k2) && re.f == x[o].f), what() + ": etl " + fstr(g.k2, re) + " expected " + fstr(g.k2, x[o]) + " (exact value " + s128(num) + "/" + s128(den) + ")");
+        }
+    }
+    g_fp_evals[S_FPROUND] += static_cast<std::uint64_t>(2 * cnt);
+    if (v.mode == 1 && (v.n == -31996 || v.n == 43) && g.N == 1 && g.D == 1) {
+        vf::sample("fp_round", [&] { return "round<" + g.n2() + ">(" + g.n1() + "(" + fstr(g.k1, a) + ")) == " + fstr(g.k2, e[2]); });
+    }
+}
+
+void run_fp_one(FDesc const& g, FVal v, vf::Ctx& c)
+{
+    (void)c;
+    chk_fp_round(g, v);
+    if (v.mode == 3) {
+        chk_fp_convert(g, v, 0);
+        return;
+    }
+    if (v.mode == 2) { // second operand: a nearby value, rounded to what the destination rep can hold
+        double y = std::bit_cast<double>(v.n) * static_cast<double>(g.N) / static_cast<double>(g.D) * 0.75 + 3.0;
+        if (g.k2 == FK_F32) { y = static_cast<double>(static_cast<float>(y)); }
+        if (!fk_float(g.k2)) { y = std::floor(y); }
+        chk_fp_convert(g, v, static_cast<i64>(std::bit_cast<std::uint64_t>(y)));
+        return;
+    }
+    // second operands (in 1/scale destination ticks): the destination tick at / next to the same instant and a constant;
+    // whole ticks for an integer destination
+    i128 const step = fk_float(g.k2) ? 1 : v.scale();
+    i128 const q    = q_floor(i128{v.n} * g.N, i128{g.D} * step) * step;
+    for (i128 c2 : {q, q + step, i128{-7 * v.scale()}}) {
+        if (fits64(c2)) { chk_fp_convert(g, v, static_cast<i64>(c2)); }
+    }
+}
+
+void run_fp_group(FDesc const& g, vf::Ctx& c)
+{
+    std::uint64_t nt = 0;
+    auto run         = [&](FVal v) {
+        run_fp_one(g, v, c);
+        if (v.n < 0 || g.D != 1 || (v.mode == 1 && (v.n & 15) == 8)) { ++nt; }
+    };
+    bool const isrc = !fk_float(g.k1);
+    i64 const span  = c.thorough() ? 40000 : 4000;
+    if (isrc) {
+        for (i64 n = -span / 2; n <= span / 2; ++n) { run(FVal{0, n, 0}); }
+    } else {
+        for (i64 n = -span; n <= span; ++n) { run(FVal{1, n, 0}); } // every sixteenth in [-250, 250]
+        // halves and their neighbours at larger magnitudes, both signs and parities
+        for (i64 m : {i64{1999}, i64{2000}, i64{65535}, i64{65536}, i64{1000001}, i64{8388606}, i64{33554431}, i64{1} << 31, (i64{1} << 40) + 1, (i64{1} << 47) + 2}) {
+            for (i64 d : {i64{-9}, i64{-8}, i64{-7}, i64{-4}, i64{-1}, i64{0}, i64{1}, i64{4}, i64{7}, i64{8}, i64{9}, i64{12}}) {
+                run(FVal{1, 16 * m + d, 0});
+                run(FVal{1, -(16 * m + d), 0});
+            }
+        }
+    }
+    // counts whose exact converted value is representable in the destination: t * D * 2^e
+    vf::Rng rng(c.seed * 7919ULL + static_cast<std::uint64_t>(g.RP * NFPP + g.PP));
+    int const nexact = c.thorough() ? 20000 : 1500;
+    for (int r = 0; r < nexact; ++r) {
+        int const dest_bits = fk_mant(g.k2);
+        int bits            = 1 + static_cast<int>(rng.below(static_cast<std::uint64_t>(dest_bits)));
+        i64 t               = static_cast<i64>(rng.next() >> (64 - bits));
+        if (t == 0) { t = 1; }
+        while (i128{t} * g.N > pow2(dest_bits) || i128{t} * g.D * g.N > pow2(fk_mant(g.kcr)) || i128{t} * g.D > pow2(fk_mant(g.k1))) { t >>= 1; }
+        if (t == 0) { continue; }
+        if (rng.next() & 1U) { t = -t; }
+        i64 e = (isrc || !fk_float(g.k2)) ? static_cast<i64>(rng.below(4)) : static_cast<i64>(rng.below(24)) - 16;
+        if (!fk_float(g.k2) || isrc) {
+            while (e > 0 && (abs128(i128{t} * g.N) << e) > pow2(fk_mant(g.k2) - 1)) { --e; }
+            while (e > 0 && (abs128(i128{t} * g.D) << e) > pow2(fk_mant(g.k1) - 1)) { --e; }
+        }
+        run(FVal{3, t, e});
+    }
+    vf::nontrivial_count(nt);
+    // seeded random finite doubles (any mantissa): bit-identical to std::chrono
+    if (!isrc) {
+        int const nrand = c.thorough() ? 40000 : 3000;
+        for (int r = 0; r < nrand; ++r) {
+            int const ex   = static_cast<int>(rng.below(51)) - 30;
+            double val     = std::ldexp(static_cast<double>(rng.next() >> 11), ex - 53);
+            if (rng.next() & 1U) { val = -val; }
+            if (g.k1 == FK_F32) { val = static_cast<double>(static_cast<float>(val)); }
+            FVal const v{2, static_cast<i64>(std::bit_cast<std::uint64_t>(val)), 0};
+            run_fp_one(g, v, c);
+            vf::nontrivial(vf::mix(vf::mix(0x77ULL, g.RP * NFPP + g.PP), v.n));
+        }
+    }
+}
+
 // ------------------------------------------------------------------------------------------------ named aliases / literals
 struct AliasFact {
     char const* name;
@@ -1568,6 +2034,12 @@ void vf_run(vf::Ctx& c)
         run_group(g, c);
         flush_tally();
     }
+    for (auto const& g : g_ftable) {
+        if (g.e == nullptr) { continue; }
+        if (!c.mine(work++)) { continue; }
+        run_fp_group(g, c);
+        flush_fp();
+    }
 }
 
 std::string vf_replay(std::string const& sub, std::string const& cs)
@@ -1577,6 +2049,19 @@ std::string vf_replay(std::string const& sub, std::string const& cs)
     long long c1 = 0, c2 = 0;
     if (std::sscanf(cs.c_str(), "%63s %d %d %d %lld %d %lld", what, &combo, &i, &j, &c1, &frac, &c2) != 7) { return "unparseable case string"; }
     (void)sub;
+    if (std::string(what) == "fp_convert" || std::string(what) == "fp_round") {
+        // fields: rep pair, period pair, exponent (mode 3), first number, mode, second number
+        int const m = combo * NFPP + i;
+        if (combo < 0 || combo >= NFREP || i < 0 || i >= NFPP || g_ftable[static_cast<std::size_t>(m)].e == nullptr) { return "case belongs to a group that is not compiled into this slice"; }
+        auto const& g = g_ftable[static_cast<std::size_t>(m)];
+        FVal const v{frac, static_cast<i64>(c1), j};
+        if (std::string(what) == "fp_round") {
+            chk_fp_round(g, v);
+        } else {
+            chk_fp_convert(g, v, static_cast<i64>(c2));
+        }
+        return "";
+    }
     int const s = sub_id(what);
     if (s < 0) { return "unknown sub-property in case string"; }
     if (s == S_ALIAS) {
